@@ -55,6 +55,31 @@ fn at_thread_exit(f: fn() -> String, library_first: bool) -> Result<String, Stri
     rx.try_recv().unwrap_or_else(|_| Err("the destructor did not run".into()))
 }
 
+/// Runs `f` from a destructor WHILE A PANIC UNWINDS on the current thread (the application failed and its clean-up code
+/// says goodbye to the sign), catches that panic, and then runs `f` once more the ordinary way on the same thread.
+/// Returns (what the clean-up saw, what the next ordinary run saw).
+fn while_unwinding(f: fn() -> String) -> (Result<String, String>, Result<String, String>) {
+    struct CleanUp<'a> {
+        f: fn() -> String,
+        out: &'a RefCell<Option<Result<String, String>>>,
+    }
+    impl Drop for CleanUp<'_> {
+        fn drop(&mut self) {
+            let f = self.f;
+            let r = if std::thread::panicking() { std::panic::catch_unwind(f).map_err(|_| "panicked".to_string()) } else { Err("the destructor did not run during an unwind".to_string()) };
+            *self.out.borrow_mut() = Some(r);
+        }
+    }
+    let slot = RefCell::new(None);
+    let _ = std::panic::catch_unwind(std::panic::AssertUnwindSafe(|| {
+        let _clean_up = CleanUp { f, out: &slot };
+        panic!("the application fails in the middle of its work");
+    }));
+    let during = slot.borrow_mut().take().unwrap_or_else(|| Err("the destructor did not run".into()));
+    let after = std::panic::catch_unwind(f).map_err(|_| "panicked".to_string());
+    (during, after)
+}
+
 fn codec() -> String {
     let mut out = String::new();
     for (a, t, d) in [(3u16, 2u8, vec![0xFFu8]), (0xFFFF, 0xFF, vec![0xA5; 255]), (0, 0, vec![]), (0x0010, 0, (0..16).collect::<Vec<u8>>())] {
@@ -167,6 +192,20 @@ pub fn check(kind: &'static str, monitor: &str, rep: &mut Report) {
             return;
         }
     };
+    {
+        rep.case(Some(fnv(kind.as_bytes()) ^ 0x0u64.wrapping_sub(7)));
+        let (during, after) = while_unwinding(f);
+        for (when, got) in [("from a destructor while another panic was unwinding", during), ("on the same thread right after a panic during which the library was used from a destructor", after)] {
+            match got {
+                Ok(s) if s == here => rep.count("unwinding_probes_ok"),
+                Ok(s) => {
+                    let at = s.bytes().zip(here.bytes()).position(|(a, b)| a != b).unwrap_or(s.len().min(here.len()));
+                    rep.violation(monitor, "different_result_around_an_unwinding_panic", &format!("unwinding|{}|{}", kind, when.len()), format!("the {} workload run {} gives a different result than at any other time: ..{}.. instead of ..{}..", kind, when, &s[at.saturating_sub(20)..(at + 40).min(s.len())], &here[at.saturating_sub(20)..(at + 40).min(here.len())]), J::obj(vec![("workload", J::s("unwinding")), ("kind", J::s(kind))]));
+                }
+                Err(e) => rep.violation(monitor, "fails_around_an_unwinding_panic", &format!("unwinding|{}|{}", kind, when.len()), format!("the {} workload run {}: {}", kind, when, e), J::obj(vec![("workload", J::s("unwinding")), ("kind", J::s(kind)), ("observed", J::s(e.clone()))])),
+            }
+        }
+    }
     for library_first in [false, true] {
         rep.case(Some(fnv(kind.as_bytes()) ^ u64::from(library_first)));
         let order = if library_first { "the thread's first library call came before the application's thread-local" } else { "the application's thread-local was created before the thread's first library call" };
